@@ -109,7 +109,7 @@ def word_configs(tier, seed):
             for glob in (True, False):
                 ps.append(par(k, 'ab1_ -', ext=False, glob=glob, affixes=aff, aslist=len(aff) == 1 and glob))
         # affixes taken literally: metacharacters, judged with is_extensible=True
-        for aff in [('a.b',), ('a+',), ('$',), ('[a]', 'b'), ('a|b',), ('(', ')'), ('\\w',), ('^a',)]:
+        for aff in [('a.b',), ('a+',), ('$',), ('[a]', 'b'), ('a|b',), ('(', ')'), ('\\w',), ('^a',), ('a\\\\', 'b'), ('\\', 'a'), ("a'", 'b'), ('b', 'a|')]:
             al = ''.join(sorted(set(''.join(aff)) | set('ab1')))
             ps.append(par(k, al, ext=True, glob=True, affixes=aff))
     return [meta_config('numerals-words', ps, 4 if tier == 'quick' else 5)]
@@ -123,7 +123,7 @@ def ip_configs(tier, seed):
             meta_config('ipv6-exact', [par('IPv6', '1a:', ext=e) for e in (False, True)], 9 if tier == 'quick' else 11),
             meta_config('ipv6-alphabet', [par('IPv6', '1Fg:.', ext=e) for e in (True,)], 6 if tier == 'quick' else 8)]
     addrs = [(False, '1.2.3.4'), (False, '255.0.10.199'), (True, '::'), (True, '1::'), (True, '::1'), (True, '1:2:3:4:5:6:7:8'),
-             (True, 'fe80::a:1'), (True, 'A:b::'), (True, '1111:2:3:4:5:6:7:8888'), (True, 'abcd::1234'), (False, '255.255.255.255')]
+             (True, 'fe80::a:1'), (True, 'A:b::'), (True, '1111:2:3:4:5:6:7:8888'), (True, 'abcd::1234'), (False, '255.255.255.255'), (True, '::a'), (True, '::ffff:102:304'), (True, '::dead:beef')]
     ctxs = ['', ' ', '1', '.', ':', 'x', ', ', '\n', '0 ', ' 9', '-', '(', ')']
     cfgs.append(meta_config('ip-embedded', [], 0, ipaddrs=addrs, ipctxs=ctxs))
     return cfgs
